@@ -344,7 +344,9 @@ def run(M, c):
     try:
         iv = b - a           # Interval.__init__ contract judges ranges + model rebuild
         rv = a - b
-    except OverflowError:
+    except OverflowError as e:
+        M.check("range", not (3 <= a.year <= 9996 and 3 <= b.year <= 9996), "C06/subtraction-raised-OverflowError", "b - a raised far from the ends of the range",
+                a=_dsc(a), b=_dsc(b), exc=repr(e)[:100])
         return
     if isinstance(a, dt.datetime) and a.tzinfo is not None:
         # an endpoint given as a native (aware) datetime denotes the same interval
